@@ -597,6 +597,10 @@ def _multiwell_test(test: ast.AST) -> Optional[bool]:
         return True
     if "real_wells" in txt or "shape" in txt:
         return False
+    names = {n.id for n in ast.walk(test) if isinstance(n, ast.Name)}
+    if names & {"initial_volumes", "component_names"} and "real_wells" not in names:
+        # decided by the contents (how many wells are filled / named), not by the geometry of the labware
+        return False
     return None
 
 
